@@ -16,8 +16,8 @@ T = 3600
 
 def run(ctx):
     drv = ctx.build("c07")
-    ctx.model_check("trie/MCTrieCommit", ctx.pick("trie/MCTrieCommitQuick", "trie/MCTrieCommitThorough"), timeout=T * 2, workers=ctx.pick(4, 8),
-                    name="MCTrieCommit", coverage=ctx.thorough)
+    if ctx.thorough:   # (the quick universe is explored, with the same invariants, by the edges run below)
+        ctx.model_check("trie/MCTrieCommit", "trie/MCTrieCommitThorough", timeout=T * 2, workers=8, name="MCTrieCommit", coverage=True)
     ctx.model_check("trie/MCTrieCommit", "trie/MCTrieCommitHash", timeout=T, workers=4, name="MCTrieCommitHash")
     # R: every Commit edge
     res = ctx.model_check("trie/MCTrieCommit", "trie/MCTrieCommitEdges", tags=("EDGE",), timeout=T, workers=4, name="MCTrieCommitEdges")
